@@ -45,3 +45,51 @@ def read_stub(check_arg=None):
         X.record(read_n=n.t, read_len=L(p), read_part=p)
         return VBytes(p)
     return read
+
+
+# --------------------------------------------------------------------------- generators as callees
+import z3 as _z3
+from pyvc.engine import Val, VFunc, NONE, VExc
+
+
+def zmin(a, b):
+    return _z3.If(a < b, a, b)
+
+
+def zmax(a, b):
+    return _z3.If(a > b, a, b)
+
+
+def iter_body_exit(stream0, delivered, CL):
+    """exit condition of _iter_body: PROVED as `post.exact` in contracts/C04.py and ASSUMED (same formula) by callers"""
+    want = zmin(zmax(CL, 0), L(stream0))
+    return _z3.And(_z3.PrefixOf(delivered, stream0), L(delivered) == want)
+
+
+class BodyGen(Val):
+    """a running body generator seen from its consumer, through its contract only:
+         next(): EITHER yields a part with 1 <= len(part) <= buff_size (appended to ghost `gen_out`),
+                 OR is exhausted (then `exit_cond(gen_out)` holds),
+                 OR (only if `may_raise` is given) raises that exception class.
+    The yield-side facts are proved on the generator's own source by its contract (yield.size, post.*)."""
+
+    def __init__(self, buff, exit_cond, may_raise=None, label='gen'):
+        self.buff, self.exit_cond, self.may_raise, self.label = buff, exit_cond, may_raise, label
+
+    def next(self, X):
+        n = 3 if self.may_raise is not None else 2
+        k = X.choose(n, self.label)
+        if k == 0:
+            p = X.fresh(BytesSort, 'gen_part')
+            X.assume(_z3.And(L(p) >= 1, L(p) <= self.buff))
+            X.setg('gen_out', VBytes(_z3.Concat(X.g('gen_out').t, p)))
+            return VBytes(p)
+        if k == 1:
+            X.assume(self.exit_cond(X.g('gen_out').t))
+            X.setg('gen_done', VBytes(bytes_true()))
+            return None
+        X.raise_(self.may_raise, 'generator')
+
+
+def bytes_true():
+    return b'\x01'
